@@ -7,11 +7,14 @@ import (
 	"encoding/json"
 	"fmt"
 	"net/netip"
+	"strings"
+	"time"
 
 	"github.com/jwhited/corebgp"
 
 	"corebgpverif/harness"
 	"corebgpverif/refmodel"
+	"corebgpverif/vrt"
 	"corebgpverif/wire"
 	"corebgpverif/world"
 )
@@ -470,7 +473,112 @@ func c02Run(cs c02Case, trace bool) (rule, sig, msg string, class refmodel.Class
 	return "", "", "", class, rep
 }
 
+// c02Pipelined: the OPEN is immediately followed, in the same TCP write, by another
+// message with a body of the same size (an UPDATE, or a KEEPALIVE-typed message) whose
+// bytes differ from the OPEN's at the 4-octet-AS capability. The judgement of the OPEN
+// must not depend on what follows it, under any schedule of reader and FSM.
+type c02Pipe struct {
+	Valid   bool `json:"open_valid"` // the OPEN itself is acceptable
+	Trailer byte `json:"trailer_type"`
+	Inbound bool `json:"inbound"`
+}
+
+func c02PipeRun(p c02Pipe, ch vrt.Chooser, trace bool) (*world.World, *vrt.Exec, func() (string, string)) {
+	good := wire.OpenBody(4, wire.AS2(65002), 90, 0x0a000002, wire.CapParam(wire.Cap{Code: 1, Value: []byte{0, 1, 0, 1}}, wire.Cap4(65002)))
+	bad := wire.OpenBody(4, wire.AS2(65002), 90, 0x0a000002, wire.CapParam(wire.Cap{Code: 1, Value: []byte{0, 1, 0, 1}}, wire.Cap4(64999)))
+	open, trailerBody := good, bad
+	if !p.Valid {
+		open, trailerBody = bad, good
+	}
+	var first *wire.Msg
+	var rem *world.Remote
+	s := &Sess{LocalAS: 65001, RemoteAS: 65002, Hold: -1, Inbound: p.Inbound, Plugin: c02Plugin(nil),
+		Script: func(w *world.World, r *world.Remote) {
+			rem = r
+			if _, ok := r.Expect(wire.TypeOpen); !ok {
+				return
+			}
+			r.Send(append(wire.Frame(wire.TypeOpen, open), wire.Frame(p.Trailer, trailerBody)...))
+			r.Deadline(3 * time.Second)
+			for {
+				m, err := r.ReadMsg()
+				if err != nil {
+					return
+				}
+				if first == nil {
+					mm := m
+					first = &mm
+				}
+			}
+		}}
+	s.Plugin = func(w *world.World) *world.Plugin {
+		return &world.Plugin{W: w, Peer: "P1", Marker: true}
+	}
+	w, e := s.Run(ch, trace)
+	judge := func() (string, string) {
+		if rem == nil || first == nil {
+			return "no-reaction", "corebgp did not react to the OPEN"
+		}
+		nCb := w.Count("OnOpenMessage", "enter", "P1")
+		if p.Valid {
+			if first.Type != wire.TypeKeepalive {
+				return "rejected-valid-open", fmt.Sprintf("an acceptable OPEN followed at once by another message was answered with %s", first)
+			}
+			if nCb != 1 {
+				return "onopen-count", fmt.Sprintf("OnOpenMessage invoked %d times", nCb)
+			}
+			want := capBytes([]wire.Cap{{Code: 1, Value: []byte{0, 1, 0, 1}}, wire.Cap4(65002)})
+			for _, ev := range w.Log {
+				if ev.Kind == "OnOpenMessage" && ev.Phase == "enter" && !bytes.Equal(ev.Data, want) {
+					return "onopen-caps", fmt.Sprintf("OnOpenMessage got capabilities %x, the OPEN carried %x", ev.Data, want)
+				}
+			}
+			return "", ""
+		}
+		if first.Type != wire.TypeNotification {
+			return "accepted-invalid-open", fmt.Sprintf("an OPEN whose 4-octet-AS capability names another AS was answered with %s", first)
+		}
+		if c, sc, _ := first.Notif(); c != 2 || sc != 2 {
+			return "wrong-notification", fmt.Sprintf("got %s, expected (2,2)", first)
+		}
+		if nCb != 0 {
+			return "onopen-on-invalid", "OnOpenMessage invoked for an unacceptable OPEN"
+		}
+		return "", ""
+	}
+	return w, e, judge
+}
+
+func c02PipeScn(p c02Pipe, bound int) *Scn {
+	b, _ := json.Marshal(p)
+	return &Scn{Name: "pipelined/" + string(b), Bound: bound, Run: func(ch vrt.Chooser, trace bool) *ScnResult {
+		if ch == nil {
+			ch = &vrt.ReplayChooser{}
+		}
+		w, e, judge := c02PipeRun(p, ch, trace)
+		return finishRun("C02", "pipelined", w, e, trace, false, judge, nil)
+	}}
+}
+
 func c02Check(c *harness.Ctx) {
+	k := 0
+	for _, valid := range []bool{true, false} {
+		for _, tr := range []byte{wire.TypeUpdate, wire.TypeKeepalive, wire.TypeNotification} {
+			for _, inbound := range []bool{true, false} {
+				k++
+				if !c.Mine(k) {
+					continue
+				}
+				bound := 2
+				if c.Thorough() {
+					bound = 3
+				}
+				if !exploreScn(c, "C02", c02PipeScn(c02Pipe{Valid: valid, Trailer: tr, Inbound: inbound}, bound)) {
+					return
+				}
+			}
+		}
+	}
 	th := c.Thorough()
 	cfgs := c02Cfgs[:3]
 	if th {
@@ -558,10 +666,21 @@ func init() {
 		Run: c02Check,
 		Replay: func(c *harness.Ctx, raw json.RawMessage) {
 			var r struct {
-				Case c02Case `json:"case"`
+				Case     c02Case `json:"case"`
+				Scenario string  `json:"scenario"`
 			}
 			if err := json.Unmarshal(raw, &r); err != nil {
 				panic(err)
+			}
+			if r.Scenario != "" {
+				scnReplay("C02", func(name string) *Scn {
+					var p c02Pipe
+					if !strings.HasPrefix(name, "pipelined/") || json.Unmarshal([]byte(name[len("pipelined/"):]), &p) != nil {
+						return nil
+					}
+					return c02PipeScn(p, 3)
+				})(c, raw)
+				return
 			}
 			rule, sig, msg, _, rep := c02Run(r.Case, true)
 			if rule != "" {
